@@ -1016,7 +1016,10 @@ impl<'a> Gen<'a> {
             (format!("string({})", n), 2)
         } else if ty == Ty::Str && self.rng.chance(1, 2) {
             let (s, n) = self.str_lit();
-            (s, n)
+            // In a session a literal is never changed in place: equal literals are one object in a
+            // single program but separate objects on separate lines, so the growing-program model and
+            // the session would legitimately differ (literal aliasing belongs to C13, not to C17).
+            (s, if self.no_global_writes { 0 } else { n })
         } else {
             (self.expr(&ty, d), 0)
         };
